@@ -144,7 +144,7 @@ def print_axioms(imports, theorems, tag):
     lines = ["import %s" % m for m in imports]
     for t in theorems:
         lines.append("#print axioms %s" % t)
-    path = os.path.join(LEAN, "Audit_%s.lean" % tag)
+    path = os.path.join(LEAN, "Audit_%s_%d.lean" % (tag, os.getpid()))  # per process: concurrent checks of one property
     with open(path, "w") as f:
         f.write("\n".join(lines) + "\n")
     try:
